@@ -150,7 +150,7 @@ def run(module, cfg, spec_dir, files=None, workers=16, timeout=3600, simulate=No
                     f.write(content)
                 else:
                     json.dump(content, f, separators=(",", ":"))
-        cmd = ["java", "-XX:+UseParallelGC", "-Xmx" + heap]
+        cmd = ["java", "-XX:+UseParallelGC", "-XX:ParallelGCThreads=4", "-Xmx" + heap]
         if workers == 1:
             cmd += ["-XX:ParallelGCThreads=2", "-XX:CICompilerCount=2", "-XX:TieredStopAtLevel=1"]
         if dfs:
@@ -172,13 +172,25 @@ def run(module, cfg, spec_dir, files=None, workers=16, timeout=3600, simulate=No
         if env:
             e.update(env)
         t0 = time.time()
-        try:
-            p = subprocess.run(cmd, cwd=tmp, stdout=subprocess.PIPE, stderr=subprocess.STDOUT,
-                               timeout=timeout, env=e, text=True, errors="replace")
-            out = p.stdout
-        except subprocess.TimeoutExpired as ex:
-            res.timed_out = True
-            out = ex.stdout if isinstance(ex.stdout, str) else (ex.stdout or b"").decode("utf8", "replace")
+        outfile = os.path.join(tmp, "_tlc.out")
+        with open(outfile, "w") as fo:
+            try:
+                p = subprocess.run(cmd, cwd=tmp, stdout=fo, stderr=subprocess.STDOUT, timeout=timeout, env=e)
+            except subprocess.TimeoutExpired:
+                res.timed_out = True
+        # PrintT lines are printed once per generated state: de-duplicate while reading so that runs emitting
+        # millions of lines do not have to be held in memory
+        seen = set()
+        kept = []
+        with open(outfile, errors="replace") as fi:
+            for ln in fi:
+                if ln.startswith('<<"'):
+                    if ln in seen:
+                        continue
+                    seen.add(ln)
+                kept.append(ln)
+        out = "".join(kept)
+        del seen, kept
         res.wall = time.time() - t0
         res.out = out
         parse(out, res)
@@ -190,7 +202,7 @@ def run(module, cfg, spec_dir, files=None, workers=16, timeout=3600, simulate=No
         if simulate and not res.ok and res.violated is None and res.error is None and "Error:" not in out:
             res.ok = True          # a simulation run that ends without an error prints no "No error has been found"
         if not res.ok and res.violated is None:
-            tail = "\n".join(out.splitlines()[-40:])
+            tail = "\n".join([l for l in out.splitlines() if not l.startswith('<<"')][-40:])
             raise TLCError("TLC failed on %s/%s:\n%s" % (module, cfg, tail))
         return res
     finally:
